@@ -490,6 +490,11 @@ def install(P, max_split=4):
             src = short_ty(re.sub(r"<.*", "", strip_generics(c.resolve(c.selfty).lstrip("&").replace("mut ", "").strip())))
             if os.environ.get("VERIF_TRACE_FROM"):
                 print("FROM?", c.callee, c.selfty, c.resolve(c.selfty), src, dst, c.tyenv)
+            if dst is not None and (src, dst) not in P.from_index:
+                # blanket impl over the source type: `impl<S: Into<String>> From<S> for Dst`
+                gen = [name for (s_, d_), name in P.from_index.items() if d_ == dst and re.fullmatch(r"[A-Z]\w?", s_)]
+                if len(gen) == 1:
+                    return gen[0]
             if dst is None or (src, dst) not in P.from_index:
                 return None
         if src is None:
@@ -840,6 +845,15 @@ def install(P, max_split=4):
         r.set(concat([sval(r.get()), sval(c.args[1])]))
         return UNIT
 
+    @P.summary("Not::not")
+    def _not(ctx, c):
+        v = deref(c.args[0])
+        if isinstance(v, bool):
+            return not v
+        if is_sym(v) and z3.is_bool(v):
+            return z3.Not(v)
+        raise Unsupported(f"Not::not on {v!r}")
+
     @P.summary("PartialEq::ne")
     def _ne(ctx, c):
         r = generic_eq(ctx, c)
@@ -1159,7 +1173,7 @@ def install(P, max_split=4):
 
     def default_of(ctx, t):
         t = t.strip()
-        if re.match(r"(std::vec::|alloc::vec::)?Vec<", t):
+        if re.match(r"(std::vec::|alloc::vec::)?Vec<", t) or re.match(r"(std::collections::(vec_deque::)?|alloc::collections::(vec_deque::)?)?VecDeque<", t):
             return VecV([])
         if t in ("bool",):
             return False
